@@ -4418,7 +4418,6 @@ func noTrailingValue(v ssa.Value, sfx string, depth int) bool {
 	return n > 0
 }
 
-
 // checkTruncationOrder: R01.8. A list that is cut at its first element below a bound (`for i, m := range l { if m.F < bound
 // { l = l[:i]; break } }`) loses everything behind that element - which is only right if the list is in descending order
 // of F. Two sites cooperate: the loop that cuts, and the sort in the function that produced the list. The rule finds the
@@ -4458,7 +4457,7 @@ func checkTruncationOrder(c *Ctx, p *core.Prog) {
 				if field == "" {
 					continue
 				}
-				// the true branch re-slices the ranged list from its start and leaves the loop
+				// the true branch re-slices the ranged list from its start and leaves the loop (or returns the cut list)
 				cuts := false
 				for _, in := range b.Succs[0].Instrs {
 					if sl, isSl := in.(*ssa.Slice); isSl && sl.X == rl.over && sl.Low == nil && sl.High != nil {
@@ -4471,11 +4470,34 @@ func checkTruncationOrder(c *Ctx, p *core.Prog) {
 						leaves = true
 					}
 				}
+				if _, isRet := b.Succs[0].Instrs[len(b.Succs[0].Instrs)-1].(*ssa.Return); isRet {
+					leaves = true
+				}
 				if !cuts || !leaves {
 					continue
 				}
 				n++
-				ok2, why := producerSortedBy(p, rl.over, field, 0)
+				var ok2 bool
+				var why string
+				if prm, isPrm := core.Unspill(rl.over).(*ssa.Parameter); isPrm {
+					// the cut is a helper of its own: the list is what the callers hand it
+					idx := -1
+					for k, q := range fn.Params {
+						if q == prm {
+							idx = k
+						}
+					}
+					sites, escapes := eng.CallSitesOf(fn)
+					ok2, why = idx >= 0 && !escapes && len(sites) > 0, "the helper that cuts the list has no call sites that can be followed"
+					for _, cs := range sites {
+						if !ok2 {
+							break
+						}
+						ok2, why = producerSortedBy(p, cs.Common().Args[idx], field, 1)
+					}
+				} else {
+					ok2, why = producerSortedBy(p, rl.over, field, 0)
+				}
 				c.R.Check(ok2, "R01.8", core.ShortFn(fn)+": the list cut at the first element with a small "+field+" is in descending order of "+field, p.Pos(ifi.Cond.Pos()), why,
 					why+": the cut drops every element behind the first small one, among them candidates that are large enough - a verbatim copy is never scored when a weaker candidate sorts in front of it")
 			}
@@ -4555,7 +4577,6 @@ func producerSortedBy(p *core.Prog, v ssa.Value, field string, depth int) (bool,
 	}
 	return false, "the list's origin is not a call of a function of the package"
 }
-
 
 // checkLineStringifier: two rules on the function that turns the words of a line into tokens (it returns the tokens and,
 // if the line is a notice, the pseudo-match that reports it).
